@@ -16,9 +16,11 @@ Kinds == {"ifT", "ifElseT", "ifElseE", "elif1", "elif2", "while", "fromTo", "fro
           \* on entry, the step on every iteration
           "fromVars", "fromThruVar",
           \* conditions that are read out of a list element (what reaches if_stmt / while_loop is a view of the slot)
-          "ifSlot", "whileSlot"}
+          "ifSlot", "whileSlot",
+          \* a parameterless function whose very first instruction is the condition of a loop (a jump back to instruction 0)
+          "fnWhile"}
 Terms == {"fall", "break", "continue", "ret", "assert", "div0", "oob"}
-LoopKinds == {"while", "fromTo", "fromThru", "fromStep", "fromAnon", "fromColl", "whileX", "fromToX", "fromStepX", "fromEmpty", "fromVars", "fromThruVar", "whileSlot"}
+LoopKinds == {"while", "fromTo", "fromThru", "fromStep", "fromAnon", "fromColl", "whileX", "fromToX", "fromStepX", "fromEmpty", "fromVars", "fromThruVar", "whileSlot", "fnWhile"}
 
 VARIABLES path, term, pad, done
 vars == <<path, term, pad, done>>
@@ -30,6 +32,7 @@ Name(p, d) == p \o ToString(d)
 Ctx0 == [lv |-> "", inloop |-> FALSE, infn |-> FALSE]
 Enter(ctx, k, d) ==
     CASE k = "fn" -> [lv |-> "", inloop |-> FALSE, infn |-> TRUE]
+      [] k = "fnWhile" -> [lv |-> Name("hc", d), inloop |-> TRUE, infn |-> TRUE]
       [] k \in {"while", "whileX", "whileSlot"} -> [ctx EXCEPT !.lv = Name("w", d), !.inloop = TRUE]
       [] k \in {"fromTo", "fromThru", "fromStep", "fromColl", "fromToX", "fromStepX", "fromVars", "fromThruVar"} -> [ctx EXCEPT !.lv = Name("i", d), !.inloop = TRUE]
       [] k \in {"fromAnon", "fromEmpty"} -> [ctx EXCEPT !.inloop = TRUE]
@@ -82,6 +85,10 @@ Build(p, d, t, ctx, padded) ==
       [] k = "fromStep" -> <<From(I(-1), I(4), FALSE, <<I(2)>>, Name("i", d), body)>> \o after
       [] k = "fromAnon" -> <<From(I(0), I(2), FALSE, <<>>, "", body)>> \o after
       [] k = "fromEmpty" -> <<From(I(5), I(5), FALSE, <<>>, "", body)>> \o after
+      [] k = "fnWhile" -> <<Let(Name("hc", d), I(-1)),
+                            Let(Name("f", d), Fn(Name("f", d), <<>>, "int",
+                                <<While(Bin("<", V(Name("hc", d)), I(2)), <<Modify(Name("hc", d), Bin("+", V(Name("hc", d)), I(1)))>> \o body)>> \o <<Ret(I(10 + d))>>)),
+                            Print(Call(V(Name("f", d)), <<>>))>> \o after
       [] k = "ifSlot" -> <<LetT(Name("fl", d), "[bool...]", List(<<Eq(ctx, 1), B(FALSE)>>)), Let(Name("k", d), I(0)),
                            If(Idx(V(Name("fl", d)), V(Name("k", d))), body)>> \o after
       [] k = "whileSlot" -> <<LetT(Name("fl", d), "[bool...]", List(<<B(TRUE), B(TRUE), B(TRUE), B(FALSE)>>)), Let(Name("w", d), I(-1)),
